@@ -228,6 +228,40 @@ pub fn run(tier: &str) -> Report {
             }
         }
     }
+    // ---- decoding is injective: a bit pattern one bit away from a valid id must be rejected, or be
+    //      another valid id; if it is accepted, re-encoding what was decoded must give the same bits
+    //      (otherwise two different ids denote one cell)
+    let mut flips = 0u64;
+    {
+        let mut base: Vec<u64> = rc::all_cells(0);
+        base.extend(rc::all_cells(1));
+        base.extend(rc::all_cells(2));
+        base.extend(rc::all_cells(3).into_iter().step_by(7));
+        base.extend(crate::enumerate::fam(2, 29).into_iter().step_by(if tier == "quick" { 97 } else { 11 }));
+        base.push(0);
+        let fv: Vec<Viol> = base
+            .par_iter()
+            .flat_map(|&id| {
+                let mut out = Vec::new();
+                for k in 0..64 {
+                    let x = id ^ (1u64 << k);
+                    if let Ok(cell) = subj::deserialize(x) {
+                        match subj::serialize(&cell) {
+                            Ok(y) if y == x => {}
+                            other => out.push(viol(
+                                "C05/decode-not-injective",
+                                format!("deserialize accepts {:#018x} (one bit away from the valid id {:#018x}) as {:?}, which encodes to {:?}: two ids denote one cell", x, id, cell, other.map(|y| format!("{:#018x}", y))),
+                                json!({"kind": "bits", "id": subj::hex(x)}),
+                            )),
+                        }
+                    }
+                }
+                out
+            })
+            .collect();
+        flips += 64 * base.len() as u64;
+        rep.sink.extend(fv);
+    }
     // ---- ids returned by API calls are canonical (lookups, children, parents on a small lattice)
     let mut api_ids = 0u64;
     for (lon, lat, _) in crate::enumerate::sphere_lonlat(64, false).into_iter().step_by(7) {
@@ -296,6 +330,20 @@ pub fn run(tier: &str) -> Report {
         strings.push(format!("0{}", "f".repeat(len - 1)));
         strings.push(format!("{}g", "f".repeat(len - 1)));
     }
+    // over-wide strings built from real values: a 16-digit value with one more digit in front or behind
+    for (i, &v) in hexvals.iter().enumerate() {
+        if i % (if tier == "quick" { 23 } else { 3 }) != 0 {
+            continue;
+        }
+        let s16 = format!("{:016x}", v);
+        for d in ["1", "2", "7", "8", "e", "f"] {
+            strings.push(format!("{}{}", d, s16));
+            if !s16.starts_with('0') {
+                strings.push(format!("{}{}", s16, d));
+            }
+            strings.push(format!("{}0{}", d, s16));
+        }
+    }
     strings.push("ffffffffffffffff".into());
     strings.push("10000000000000000".into());
     strings.push("0x10".into());
@@ -322,6 +370,7 @@ pub fn run(tier: &str) -> Report {
     rep.set("exhaustive_scope", json!(format!("all tuples with res <= {}; all strings of length <= 3 over a 24-symbol alphabet", rmax)));
     rep.set("api_ids_checked_canonical", json!(api_ids));
     rep.set("duplicate_ids", json!(dups));
+    rep.set("single_bit_neighbours_decoded", json!(flips));
     rep.sample(json!({"tuple": {"face": 7, "quintant": 3, "s": 5, "res": 4}, "documented_id": format!("{:#018x}", rc::encode(rc::Tuple{face:7,quintant:3,s:5,res:4}).unwrap())}));
     rep.sample(json!({"hex_string": "10000000000000000", "expect": "Err (wider than 64 bits)"}));
     rep.sample(json!({"hex_value": "0xffffffffffffffff"}));
@@ -340,6 +389,16 @@ pub fn replay(case: &Value) -> Vec<Viol> {
                 res: case["res"].as_i64().unwrap() as i32,
             };
             check_tuple(t).1
+        }
+        "bits" => {
+            let x = u64::from_str_radix(case["id"].as_str().unwrap(), 16).unwrap();
+            match subj::deserialize(x) {
+                Ok(cell) => match subj::serialize(&cell) {
+                    Ok(y) if y == x => vec![],
+                    other => vec![viol("C05/decode-not-injective", format!("{:#018x} decodes to {:?} which encodes to {:?}", x, cell, other), case.clone())],
+                },
+                Err(_) => vec![],
+            }
         }
         "hex_u64" => {
             let s = case["value"].as_str().unwrap().trim_start_matches("0x");
